@@ -32,7 +32,7 @@ REQUIRED_MONITORS = ["ConvexPolyhedron.volume", "ConvexPolyhedron.surface_area",
                      "ConvexPolyhedron.inertia_tensor", "ConvexPolyhedron.get_face_area", "ConvexPolyhedron.face_centroids",
                      "order-independence", "lattice-exact"]
 REQUIRED_CLASSES = ["kind:lattice", "kind:tabulated", "kind:prism", "kind:ellipsoid-flat", "kind:ellipsoid-needle",
-                    "offset:10.0", "offset:0.0", "history:aged-object", "kind:exact-needle", "kind:exact-low-apex", "kind:exact-plate"]
+                    "offset:10.0", "offset:0.0", "history:aged-object", "history:sibling-aged", "kind:exact-needle", "kind:exact-low-apex", "kind:exact-plate"]
 
 _cache = {}
 
@@ -253,8 +253,8 @@ def run_case(i, rng, rec, tier, state):
     # one case in four goes on with the same object: reads have filled whatever it memoises; now it is resized, moved,
     # reoriented through the public API and read again - the postconditions judge against the *current* vertices
     if i % 4 == 1 and "Pint" not in c:       # (the extreme solids stay as built: moved or reoriented they leave the stated ranges)
-        hist = aging.age(s, rng, reads=False)
-        rec.cls("history:aged-object")
+        hist, _sib = aging.age_or_sibling(s, rng, reads=False)
+        rec.cls("history:aged-object" if _sib is None else "history:sibling-aged")
         if not np.all(np.isfinite(np.asarray(s.vertices, float))):
             rec.violation("ConvexPolyhedron.vertices", "ConvexPolyhedron/non-finite-vertices-after-history", {"vertices": P, "history": hist})
         else:
